@@ -37,9 +37,7 @@ func vh_CFG() {
 	pre := vSnapshotNode(n)
 	preCfg := r.configuration.Clone()
 	preCfgPtr := r.configuration
-	r.mu.Lock()
-	committedThisTerm := r.state != Shutdown && r.committedThisTerm()
-	r.mu.Unlock()
+	committedThisTerm := vAnd(r.state != Shutdown, vRefCommittedThisTerm(&pre))
 
 	var fut Future[Configuration]
 	if remove {
